@@ -1,5 +1,6 @@
 import Pm.Dev2Count
 import Pm.Dev2Timer
+import Pm.WalkProof
 /-! # C12 — failures are contained, reported and recovered from
 
 Ranking: back-off spacing (done) ▸ a failing head takes the whole queue with it, each client action reported once
@@ -32,7 +33,8 @@ theorem C12_backoff_one_second (d : Dev) (now : Time) (h : 0 < d.retryCount) (hn
   simp [hpos, this]
 
 /-- `_reconnect` under the same conditions performs no system call at all on a device that is not connected:
-    no `socket`, no `connect`, no `fork` -/
+    no `socket`, no `connect`, no `fork` — for a host with several addresses: none of them is tried (one *attempt* is one walk
+    over the whole address list, `C12_attempt_walks_all_addresses`; the back-off spaces attempts, not addresses) -/
 theorem C12_no_attempt_within_backoff (c : CS) (tmo : Option Time) (h0 : c.dev.conn = 0)
     (h : 0 < c.dev.retryCount) (hn : c.env.now < c.dev.lastRetry + 1000000) :
     (reconnectDev c tmo).1.sys = c.sys ∧ (reconnectDev c tmo).1.dev.conn = 0 := by
@@ -238,5 +240,92 @@ theorem C12_retry_count (d : Dev) (env : Env) (o : Oracle) (c : CS) (h0 : c.dev.
    installStep_retryCount com bnames cid tele al acc nd⟩
 
 end recovery
+
+/-! ## several addresses per host: what one attempt is (`device_tcp.c`: `tcp->addrs`, `tcp->cur`) -/
+section addresses
+open Pm.Dev2.Walk
+
+/-- **One attempt = one walk over the address list.**  `attemptTried c` / `finishTried c i` / `walkTried n c` are the indices (into
+    `tcp->addrs`) for which `tcp_connect_one` is called, in call order (ghosts beside `connectWalk`, same recursion).
+    1. `tcp_connect` — NOT_CONNECTED, no descriptor, a host with at least one address — tries the addresses `0, 1, 2, …` in order,
+       each once.  It ends NOT_CONNECTED ("connection refused": `cur == NULL`, no descriptor held) **only after every address
+       was tried**; otherwise it ends on the **first** address `j` whose `tcp_connect_one` did not fail at once: `cur` stands on
+       `j`, its descriptor is held, the device is CONNECTING (EINPROGRESS) or CONNECTED, and no address behind `j` was touched.
+    2. `tcp_finish_connect`, when `SO_ERROR` says the pending connect on address `i` failed, goes on with `i+1, i+2, …` in the
+       same way: NOT_CONNECTED only when every address behind `i` has failed too (none left: at once), else CONNECTING or
+       CONNECTED on the first `j > i` that did not fail at once.
+    3. The walk itself, from address `i` with at least `naddr - i` iterations of fuel (both callers give `naddr`): the same
+       dichotomy; the connection state is CONNECTED or what it was.
+    However many addresses one attempt tries, `_connect` counts it once (`C12_attempt_counts_once`). -/
+theorem C12_attempt_walks_all_addresses :
+    (∀ c : CS, c.dev.conn = 0 → c.dev.fd = none → 0 < c.dev.naddr →
+      ((tcpConnect c).1.dev.conn = 0 ∧ (tcpConnect c).1.dev.cur = none ∧ (tcpConnect c).1.dev.fd = none ∧
+          attemptTried c = List.range c.dev.naddr) ∨
+      (∃ j, j < c.dev.naddr ∧ (tcpConnect c).1.dev.cur = some j ∧ (tcpConnect c).1.dev.fd.isSome = true ∧
+          ((tcpConnect c).1.dev.conn = 1 ∨ (tcpConnect c).1.dev.conn = 2) ∧ attemptTried c = List.range (j + 1))) ∧
+    (∀ (c : CS) (i : Nat), c.dev.cur = some i → i < c.dev.naddr → c.dev.conn = 1 →
+      ((finishConnectFail c).dev.conn = 0 ∧ (finishConnectFail c).dev.cur = none ∧ (finishConnectFail c).dev.fd = none ∧
+          finishTried c i = List.range' (i + 1) (c.dev.naddr - (i + 1))) ∨
+      (∃ j, i < j ∧ j < c.dev.naddr ∧ (finishConnectFail c).dev.cur = some j ∧ (finishConnectFail c).dev.fd.isSome = true ∧
+          ((finishConnectFail c).dev.conn = 1 ∨ (finishConnectFail c).dev.conn = 2) ∧
+          finishTried c i = List.range' (i + 1) (j - i))) ∧
+    (∀ (n : Nat) (c : CS) (i : Nat), c.dev.cur = some i → i < c.dev.naddr → c.dev.naddr - i ≤ n → c.dev.fd = none →
+      ((connectWalk n c).dev.cur = none ∧ walkTried n c = List.range' i (c.dev.naddr - i) ∧ (connectWalk n c).dev.fd = none ∧
+          (connectWalk n c).dev.conn = c.dev.conn) ∨
+      (∃ j, i ≤ j ∧ j < c.dev.naddr ∧ (connectWalk n c).dev.cur = some j ∧ walkTried n c = List.range' i (j - i + 1) ∧
+          (connectWalk n c).dev.fd.isSome = true ∧
+          ((connectWalk n c).dev.conn = 2 ∨ (connectWalk n c).dev.conn = c.dev.conn))) :=
+  ⟨tcpConnect_attempt, finishConnectFail_attempt, connectWalk_tried⟩
+
+/-- non-vacuity: a host with three addresses.  The first is unreachable at once, the second refuses at once, the third is in
+    progress: all three are tried in order, the device is CONNECTING on the third with its socket (2002) held.  With every
+    address failing at once: three tries, "connection refused", no descriptor.  And `tcp_finish_connect` after a failed
+    `SO_ERROR` on the first address: the second connects at once — CONNECTED on address 2 -/
+example : ex3.conn = 0 ∧ ex3.fd = none ∧ 0 < ex3.naddr ∧
+    attemptTried ⟨ex3, env221, [], false⟩ = [0, 1, 2] ∧ (tcpConnect ⟨ex3, env221, [], false⟩).1.dev.cur = some 2 ∧
+    (tcpConnect ⟨ex3, env221, [], false⟩).1.dev.fd = some 2002 ∧ (tcpConnect ⟨ex3, env221, [], false⟩).1.dev.conn = 1 ∧
+    attemptTried ⟨ex3, env222, [], false⟩ = [0, 1, 2] ∧ (tcpConnect ⟨ex3, env222, [], false⟩).1.dev.cur = none ∧
+    (tcpConnect ⟨ex3, env222, [], false⟩).1.dev.fd = none ∧ (tcpConnect ⟨ex3, env222, [], false⟩).1.dev.conn = 0 := by
+  decide
+example : finishTried ⟨{ ex3 with conn := 1, fd := some 2000 }, { envFin with soerrs := [0] }, [], false⟩ 0 = [1] ∧
+    (finishConnectFail ⟨{ ex3 with conn := 1, fd := some 2000 }, { envFin with soerrs := [0] }, [], false⟩).dev.cur = some 1 ∧
+    (finishConnectFail ⟨{ ex3 with conn := 1, fd := some 2000 }, { envFin with soerrs := [0] }, [], false⟩).dev.conn = 2 ∧
+    (finishConnectFail ⟨{ ex3 with conn := 1, fd := some 2000 }, { envFin with soerrs := [0] }, [], false⟩).dev.fd = some 2001 := by
+  decide
+
+/-- **The next attempt starts over at the first address** (fix b7c4c70: before it, an attempt that had exhausted the list
+    left `tcp->cur == NULL` and the next `tcp_connect` tripped `assert(tcp->cur != NULL)`; an attempt that had stopped on
+    address `j` resumed there).  Past its two asserts `tcp_connect` does not read `tcp->cur` at all — the result and the
+    addresses tried are the same whatever the previous attempt left there — and the first address it tries is address 0. -/
+theorem C12_next_attempt_restarts_at_first (c : CS) (v : Option Nat) (h0 : c.dev.conn = 0) (hfd : c.dev.fd = none)
+    (hna : 0 < c.dev.naddr) :
+    tcpConnect { c with dev := { c.dev with cur := v } } = tcpConnect c ∧
+    attemptTried { c with dev := { c.dev with cur := v } } = attemptTried c ∧
+    (attemptTried c).head? = some 0 := by
+  refine ⟨(tcpConnect_ignores_cur c v h0 hfd).1, (tcpConnect_ignores_cur c v h0 hfd).2, ?_⟩
+  rcases tcpConnect_attempt c h0 hfd hna with ⟨_, _, _, h⟩ | ⟨j, _, _, _, _, h⟩
+  · rw [h]; cases hn : c.dev.naddr with
+    | zero => omega
+    | succ m => simp [List.range_succ_eq_map]
+  · rw [h]; simp [List.range_succ_eq_map]
+
+/-- non-vacuity: after the attempt on which every address failed (`cur == NULL`), the next attempt — here with the third
+    address in progress — tries `0, 1, 2` again -/
+example :
+    let d := (tcpConnect ⟨ex3, env222, [], false⟩).1.dev
+    d.cur = none ∧ d.conn = 0 ∧ d.fd = none ∧ 0 < d.naddr ∧ attemptTried ⟨d, env221, [], false⟩ = [0, 1, 2] := by
+  decide
+
+/-- **An attempt is counted once**, however many addresses it walks over: `_connect` sets `last_retry` to the time of the pass
+    and raises `retry_count` by one — the back-off (`C12_backoff_one_second`, `C12_no_attempt_within_backoff`) is between
+    attempts, not between addresses -/
+theorem C12_attempt_counts_once (c : CS) (h0 : c.dev.conn = 0) :
+    (connectDev c).dev.retryCount = c.dev.retryCount + 1 ∧ (connectDev c).dev.lastRetry = c.env.now :=
+  ⟨(Pm.Dev2.Timer.connectDev_cases c h0).2.2.1, (Pm.Dev2.Timer.connectDev_cases c h0).2.1⟩
+
+example : (connectDev ⟨ex3, env222, [], false⟩).dev.retryCount = 1 ∧ (connectDev ⟨ex3, env222, [], false⟩).sys.length = 9 := by
+  decide
+
+end addresses
 
 end Pm.Props.C12
